@@ -5,7 +5,6 @@
 #define GATE_SHADOW 1
 #include "gate_contracts.h"
 struct verif_gate __verif_gate;
-int __verif_stderr_msg;
 int __verif_vm_r; uint8_t __verif_top_tag; int64_t __verif_top_i64;
 char __verif_pool[VERIF_POOL_BYTES];
 
